@@ -125,6 +125,7 @@ class Engine:
         self.feas_cache = {}
         self._sx = {}
         self.int_mode = False
+        self.lin_inc = False
         self.inc = None
         self.inc_n = 0
         self.portfolio = True
@@ -274,6 +275,12 @@ class Engine:
             return hit
         if self.int_mode and not ctx().defn:
             r = self.inc_check(c)
+        elif self.lin_inc and not ctx().cone(self.base + self.pc + [c]):
+            # no defining constraint (division / sqrt / fmod variable) is involved: the query is over the inputs only and
+            # is decided by the incremental solver holding base + path condition; an unknown falls back to the portfolio
+            r = self.inc_check(c)
+            if r == z3.unknown:
+                r, _ = self.check([c], self.feas_timeout_ms)
         else:
             r, _ = self.check([c], self.feas_timeout_ms)
         # unknown is treated as feasible (sound for violation search, may add paths)
